@@ -71,7 +71,7 @@ CHECKS = {
    note="Trusted: the status table transcribed from gribi.proto comments and compliance expectations (sets where several statuses are acceptable); the tolerance for parameters checked against a not-yet-negotiated peer.",
    design="DESIGN.md §4 C09"),
  "C12": dict(
-   technique="property-based testing with constructed invalid classes and structural protobuf mutation of valid operations, before/after state comparison and a twin-RIB panic screen",
+   technique="property-based testing with constructed invalid classes and structural protobuf mutation of valid operations, before/after state comparison and a twin-RIB panic screen; the thorough tier adds coverage-guided native fuzzing (go test -fuzz) of proto.Unmarshal-decoded operations with the same oracle inside the target",
    level="exploration",
    text="A server pre-loaded with a generated RIB and a second idle session receives one message: every constructed invalid class, 1-3 structural mutations (undefined enum numbers, cleared sub-messages, duplicated list keys, invalid UTF-8, boundary integers, junk strings) of valid full-field operations, or a malformed Get/Flush. The operation is first applied to a twin RIB under recover (a panic there is a violation with the case), then sent through the server: exactly one in-band result or a clean RPC error on that session only; the idle session sees nothing and afterwards wins an election and programs an entry; rejected operations leave contents, held set and counters identical, accepted mutants change only their own key and keep counters and Get consistent.",
    note="Trusted: classification of the constructed classes as invalid (from the property text); the in-process stream (delivers messages gRPC's codec would refuse). A crash of the test process is reported by the driver as a violation with the in-flight case.",
@@ -103,11 +103,11 @@ CHECKS = {
  "C14": dict(
    technique="fault enumeration: every fault index x side x status class x burst size x epilogue on a scripted stub stream, with watchdog and goroutine-dump census oracles",
    level="fault_enumeration",
-   text="A scripted exchange is cut by one stream fault at every message index on the send side (failing Send, or a Send stalled by flow control that then fails) and on the receive side, for EOF/Unavailable/Internal/Canceled, while the application queues a burst of 0..12 further requests; then Close, or Reset + new stub + Connect + a further exchange. The full product over small parameters is enumerated and larger ones are drawn. Done must fire, every Q must return, the error must be recorded, AwaitConverged must return a *ClientErr (never nil), Close/Reset must return, no goroutine with client frames may remain, and after Reset+Connect the client must be empty and converge again.",
+   text="A scripted exchange is cut by one stream fault at every message index on the send side (failing Send, or a Send stalled by flow control that then fails) and on the receive side, for EOF/Unavailable/Internal/Canceled, while the application queues a burst of 0..12 further requests; then Close, or Reset + new stub + Connect + a further exchange. The full product over small parameters is enumerated and larger ones are drawn. Done must fire, every Q must return, the error must be recorded, AwaitConverged must return a *ClientErr (never nil), Close/Reset must return, no goroutine with client frames may remain, and after Reset+Connect the client must be empty, the new stream must carry exactly a fresh client's messages and a further exchange must converge.",
    note="Trusted: the stub's emulation of the gRPC client-stream contract; goroutine census by stack frames; 10 s watchdog (a hang is reported only with the blocked client frames in the dump).",
    design="DESIGN.md §4 C14"),
  "C11": dict(
-   technique="randomised concurrent workloads (rapid-drawn scripts, scheduler perturbation, GOMAXPROCS variation) under the Go race detector with a hang watchdog and a quiescent-state oracle",
+   technique="randomised concurrent workloads (rapid-drawn scripts, scheduler perturbation, GOMAXPROCS variation) and election storms (simultaneous announcements from a spin barrier) under the Go race detector with a hang watchdog and a quiescent-state oracle",
    level="exploration",
    text="2-4 Modify sessions with ascending election ids (ties across sessions) and batches over per-session disjoint keys run from real goroutines together with Get readers and Flush callers (override and id-authorised) against one server built with -race. Any race-detector report is a violation (signature = the racing gribigo functions), as is a process death or a hang with gribigo frames parked on a lock/channel. At quiescence the learnt election id must be the maximum announced, the primary a session that announced it, every operation answered with one legal result sequence and, when no Flush overlapped, Get(ALL) must equal the union of the per-session folds of acknowledged operations.",
    note="Trusted: the Go race detector's happens-before analysis on the executions seen; the scheduler chooses the interleavings (sampled, not enumerated).",
